@@ -196,7 +196,7 @@ def earlier_simulation(locks):
 def build_for(case):
     def build(arena):
         arena.start = case.get('start', 0)
-        locks = [Lock(), Lock()]
+        locks = [inject.made(case, Lock), inject.made(case, Lock)]
         if case.get('reused'):
             earlier_simulation(locks)
         checker = LockChecker(arena, locks)
